@@ -179,6 +179,8 @@ def run_stmt(names, s):
         del m, xs
     elif k == "clear":
         names[s["t"]].clear_graph()
+    elif k == "setshape":
+        names[s["t"]].shape = tuple(s["shape"])
     elif k == "backward":
         names[s["t"]].backward()
     else:
